@@ -123,6 +123,14 @@ STMTS = [
     "let ___ = r#fn + r#match;",
 ]
 
+TEST_MODS = [
+    "#[cfg(test)] mod tests { use super::*; #[test] fn it_works() {} }",
+    "#[cfg(test)]\nmod tests {\n    #[test] fn a() {}\n    pub fn helper<D>(deps: &D) {}\n}",
+    "/// docs\n#[cfg(test)] #[allow(unused)] pub(crate) mod tests { pub fn in_tests() {} }",
+    "#[cfg(all(test, not(miri)))] mod tests { fn t() {} }",
+    "#[cfg(test)] mod tests {}",
+]
+
 MOD_ITEMS_OTHER = [
     # brace-bodied items whose header ends in a comma (a where clause with a trailing comma, as rustfmt writes it) or contains a
     # brace-delimited const argument
@@ -219,6 +227,13 @@ def rich_mod(rng, name, nfns=None):
     others = rng.sample(MOD_ITEMS_OTHER, rng.randint(0, 10))
     items += others
     rng.shuffle(items)
+    if rng.random() < 0.25:
+        # the unit tests of the module, where they are usually written: last (sometimes first, sometimes both)
+        where = rng.choice(["last", "last", "last", "first", "both"])
+        if where in ("last", "both"):
+            items.append(rng.choice(TEST_MODS))
+        if where in ("first", "both"):
+            items.insert(0, rng.choice(TEST_MODS).replace("mod tests", "mod tests_first"))
     if rng.random() < 0.15:
         # inner attributes: they open the module body, before the first item
         items = rng.sample(INNER_ATTRS, rng.randint(1, 2)) + items
